@@ -66,6 +66,7 @@ structure PState where
   stereoBonds : SBonds := []
   starts : List Nat := []         -- set: atoms without a preceding atom
   previous : Option PB := none
+  opened : Bool := false          -- `(` read and no atom of the side chain yet
   log : List String := []
   deriving Repr, Inhabited
 
@@ -112,7 +113,7 @@ def pstep (strong : Bool) (st : PState) (t : Tok) : Except Err PState :=
   match t with
   | .lpar =>
     if st.previous.isSome then .error (smilesErr "bond before side chain")
-    else .ok { st with stack := st.lastNum :: st.stack }
+    else .ok { st with stack := st.lastNum :: st.stack, opened := true }
   | .rpar =>
     if st.previous.isSome then .error (smilesErr "bond before closure")
     else match st.stack with
@@ -132,6 +133,7 @@ def pstep (strong : Bool) (st : PState) (t : Tok) : Except Err PState :=
     else .ok { st with previous := some (.dir b) }
   | .cyc n =>
     if st.previous == some .dot then .error (smilesErr "dot-cycle pattern invalid")
+    else if st.opened then .error (smilesErr "cycle number right after (")
     else match lookupNat n st.cycles with
       | none =>
         .ok { st with cycles := st.cycles ++ [(n, ⟨st.lastNum, st.previous, (orderGet st.order st.lastNum).length⟩)],
@@ -178,7 +180,7 @@ def pstep (strong : Bool) (st : PState) (t : Tok) : Except Err PState :=
                     starts := if isStart then st.starts ++ [n] else st.starts,
                     atoms := st.atoms ++ [{ tok with stereo := none }],
                     types := st.types ++ [ty],
-                    lastNum := n, atomNum := n + 1 }
+                    lastNum := n, atomNum := n + 1, opened := false }
   | .other _ _ => .error (.crash "ModelShape")
 
 def prun (strong : Bool) : PState → List Tok → Except Err PState
